@@ -359,7 +359,7 @@ pub fn run(rep: &mut Report) {
             routing(rep, n, &masks);
             configs += 1;
             if n <= (if thorough { 4 } else { 3 }) {
-                for hist in 0..4u8 {
+                for hist in 0..(if thorough { 4u8 } else { 2 }) {
                     busy_owner(rep, n, &masks, hist);
                 }
             }
@@ -377,7 +377,7 @@ pub fn run(rep: &mut Report) {
     rep.extra.insert("configurations".into(), json!(configs));
     rep.sample(json!({"queues":3,"masks":["0b101","0b010"],"kicked":2,"expect":{"thread":0,"event":1,"ring_size":8}}));
     rep.sample(json!({"queues":2,"masks":["0b11"],"listener_id":65537,"expect":"refused, or delivered with exactly id 65537"}));
-    rep.rule = "all assignments of n queues to worker masks drawn from all non-empty subsets of n bits (plus masks with bits beyond n for n<=3): 1..=3 workers for n<=3, 1..=2 for n=4 (a structured subset of the pairs at quick); thorough: 1..=3 workers for every n<=5 and 1..=2 workers for n=6; every ring started and enabled with a distinct size, every queue kicked once, barrier on every worker; custom listener ids {0..5, 255, 256, 65535, 65536, 65537, 65538, 2^32+1, 2^32+5, 2^64-1} on two configurations, registered for readability and (valid ids) for one-shot writability; for n<=3 (thorough: 4) and every configuration with a queue in more than one mask: after each of 4 message histories (none, enabling message repeated once / twice, ring sizes set again) the owner of such a queue is held inside its handler, the queue kicked again, and no other worker may handle it before the owner is released (deterministic 'owner busy' schedule, barrier on the other workers). Non-trivial = kicks whose (thread id, event id, vrings[event id] identity) were verified, listeners delivered with their exact id or refused".into();
+    rep.rule = "all assignments of n queues to worker masks drawn from all non-empty subsets of n bits (plus masks with bits beyond n for n<=3): 1..=3 workers for n<=3, 1..=2 for n=4 (a structured subset of the pairs at quick); thorough: 1..=3 workers for every n<=5 and 1..=2 workers for n=6; every ring started and enabled with a distinct size, every queue kicked once, barrier on every worker; custom listener ids {0..5, 255, 256, 65535, 65536, 65537, 65538, 2^32+1, 2^32+5, 2^64-1} on two configurations, registered for readability and (valid ids) for one-shot writability; for n<=3 (thorough: 4) and every configuration with a queue in more than one mask: after each of 2 message histories at quick (none, enabling message repeated) and 4 at thorough (also: repeated twice, ring sizes set again) the owner of such a queue is held inside its handler, the queue kicked again, and no other worker may handle it before the owner is released (deterministic 'owner busy' schedule, barrier on the other workers). Non-trivial = kicks whose (thread id, event id, vrings[event id] identity) were verified, listeners delivered with their exact id or refused".into();
     rep.assumptions.push("rings are distinguished by their configured size (2 << q)".into());
 }
 
